@@ -335,7 +335,7 @@ Proof.
   intros He. pose proof (WF _ He) as W. set (m := e_link e) in W.
   destruct W as (HN & Hr & Hv & Hvsl).
   assert (W : wf_link U st m) by (repeat split; assumption).
-  unfold link_step. rewrite (vf_link _ _ VF _ He). cbn [bind fst snd].
+  unfold link_step, link_raw, link_raw_V, link_Veq. rewrite (vf_link _ _ VF _ He). cbn [bind fst snd].
   rewrite (node_up_spec e He). cbn [bind fst snd].
   rewrite (node_down_spec e He). cbn [bind].
   rewrite (q_ramp_spec e He). cbn [bind].
@@ -364,7 +364,8 @@ Proof.
   { unfold rho'. rewrite np_step_density_length; lia. }
   assert (Lv' : length v' = lN (linkd U m)).
   { unfold v'. rewrite np_step_speed_length; lia. }
-  exists rho', v'. rewrite Lr', Lv', Hr, Hv, !Nat.eqb_refl. cbn [andb].
+  exists rho', v'. cbn [bind fst snd pn_rho pn_v no_options].
+  rewrite Lr', Lv', Hr, Hv, !Nat.eqb_refl. cbn [andb].
   split; [reflexivity|]. split; [reflexivity|]. split; [reflexivity|].
   intros i Hi. split.
   - unfold rho', spec_rho_next. fold m.
